@@ -1239,3 +1239,384 @@ Proof.
     destruct r; cbn [fst snd]; split; intros; try lia; try discriminate; contradiction.
   - cbn [fst snd]. split; [intros _; lia|reflexivity].
 Qed.
+
+(* ------------------------------------------------------------------ *)
+(* hooks: started, draining, stopped -- in this order, over whole runs   *)
+
+Lemma hooks_app a b : hooks_of (a ++ b) = hooks_of a ++ hooks_of b.
+Proof. unfold hooks_of. apply flat_map_app. Qed.
+
+Lemma hooks_filter f e : hooks_of e = [] -> hooks_of (filter f e) = [].
+Proof.
+  unfold hooks_of. induction e as [|x r IH]; cbn [filter flat_map]; [reflexivity|].
+  intros H. apply app_eq_nil in H. destruct H as [H1 H2]. destruct (f x); cbn [flat_map]; [rewrite H1|]; auto.
+Qed.
+
+Lemma hooks_shed l : hooks_of (shed_events l) = [].
+Proof. unfold shed_events, hooks_of. induction l; cbn; auto. Qed.
+
+Lemma enqueue_job_quiet c w j : hooks_of (snd (enqueue_job c w j)) = [].
+Proof.
+  unfold enqueue_job.
+  destruct (match wsettings c with Some (l, Newest) => negb (w_available w) && (l <=? len (w_q w)) | _ => false end);
+    [reflexivity|].
+  destruct (w_cur w).
+  - destruct (wsettings c) as [[l [|]]|]; cbn [snd]; try reflexivity.
+    change (hooks_of ([EAccept (jid j)] ++ shed_events (firstn (length (w_q w ++ [j]) - N.to_nat l) (w_q w ++ [j]))) = []).
+    rewrite hooks_app, hooks_shed. reflexivity.
+  - destruct (w_q w); reflexivity.
+Qed.
+
+Lemma route_inner_quiet c s j hint s' r e : route_inner c s j hint = (s', r, e) -> hooks_of e = [].
+Proof.
+  unfold route_inner. destruct (choose c (f_rs s) j (f_size s) hint (f_pool s)) as [rs' [i|]];
+    [|intros H; inversion H; reflexivity].
+  cbn [set_rs f_pool]. destruct (find_w (f_pool s) i) as [w|]; [|intros H; inversion H; reflexivity].
+  pose proof (enqueue_job_quiet c w j) as Hq. destruct (enqueue_job c w j) as [w' ev]. cbn [snd] in Hq.
+  intros H; inversion H; subst. exact Hq.
+Qed.
+
+Lemma route_quiet c s j hint s' r e : route c s j hint = (s', r, e) -> hooks_of e = [].
+Proof.
+  unfold route. destruct (c_rate c) as [[rc ini]|]; [|apply route_inner_quiet].
+  destruct (f_bucket s) as [b|]; [|apply route_inner_quiet].
+  destruct (check rc b (f_now s)) as [b' ok]. destruct ok.
+  - destruct (route_inner c (set_bucket s (Some b')) j hint) as [[s2 r2] e2] eqn:E.
+    apply route_inner_quiet in E. intros H. destruct r2; inversion H; subst; exact E.
+  - intros H; inversion H; reflexivity.
+Qed.
+
+Lemma try_route_quiet c fuel : forall s hint s' e, try_route c fuel s hint = (s', e) -> hooks_of e = [].
+Proof.
+  induction fuel as [|f IH]; intros s hint s' e; cbn [try_route]; [intros H; inversion H; reflexivity|].
+  destruct (pop_front (c_queue c) (f_q s)) as [[j q']|]; [|intros H; inversion H; reflexivity].
+  destruct (choose c (f_rs s) j (f_size s) hint (f_pool s)) as [rs' [i|]]; [|intros H; inversion H; reflexivity].
+  destruct (route c (set_fq (set_rs s rs') q') j (Some i)) as [[s2 r] e0] eqn:Er.
+  apply route_quiet in Er. pose proof (hooks_filter (answered (jid j)) e0 Er) as Hf. intros H. destruct r.
+  - inversion H; subst. exact Hf.
+  - inversion H; subst. rewrite hooks_app, Hf. reflexivity.
+  - destruct (try_route c f s2 hint) as [s3 e'] eqn:Et. inversion H; subst.
+    rewrite hooks_app, Hf. cbn [app]. change (hooks_of (EDiscard (jid j) RateLimited :: e')) with (hooks_of e').
+    eapply IH; eassumption.
+Qed.
+
+Lemma shed_fq_quiet k l fuel : forall q, hooks_of (snd (shed_fq k l fuel q)) = [].
+Proof.
+  induction fuel as [|f IH]; intros q; cbn [shed_fq]; [reflexivity|].
+  destruct (l <? len q); [|reflexivity]. destruct (discard_oldest k q) as [[x q']|]; [|reflexivity].
+  specialize (IH q'). destruct (shed_fq k l f q') as [q'' e]. cbn [snd] in *. exact IH.
+Qed.
+
+Lemma maybe_enqueue_quiet c q j : hooks_of (snd (maybe_enqueue c q j)) = [].
+Proof.
+  unfold maybe_enqueue. destruct (c_discard c) as [[l [|]]|]; [| |reflexivity].
+  - destruct (discardable c j && (l <=? len q)); reflexivity.
+  - pose proof (shed_fq_quiet (c_queue c) l (length (q ++ [j])) (q ++ [j])) as H.
+    destruct (shed_fq (c_queue c) l (length (q ++ [j])) (q ++ [j])) as [q2 e]. cbn [snd] in *. exact H.
+Qed.
+
+Lemma dispatch_quiet c s j s' e : dispatch c s j = (s', e) -> hooks_of e = [].
+Proof.
+  unfold dispatch. destruct (f_drain s); try (intros H; inversion H; reflexivity).
+  destruct (route c s j None) as [[s1 r] e1] eqn:Er. apply route_quiet in Er. intros H.
+  destruct r.
+  - inversion H; subst. exact Er.
+  - pose proof (maybe_enqueue_quiet c (f_q s1) j) as Hm. destruct (maybe_enqueue c (f_q s1) j) as [q' e'].
+    inversion H; subst. rewrite hooks_app, Er. exact Hm.
+  - inversion H; subst. rewrite hooks_app, Er. reflexivity.
+Qed.
+
+Lemma worker_complete_quiet w : hooks_of (snd (worker_complete w)) = [].
+Proof. unfold worker_complete. destruct (w_q w); reflexivity. Qed.
+
+Lemma worker_finished_quiet c s i s' e : worker_finished c s i = (s', e) ->
+  hooks_of e = [] /\ f_stopped s' = f_stopped s.
+Proof.
+  unfold worker_finished. destruct (find_w (f_pool s) i) as [w|]; [|intros H; inversion H; split; reflexivity].
+  pose proof (worker_complete_quiet w) as Hq. destruct (worker_complete w) as [w' e1]. cbn [snd] in Hq.
+  destruct (w_drain w').
+  - destruct (w_working w'); intros H; inversion H; subst; split; try exact Hq; reflexivity.
+  - unfold try_route_next.
+    match goal with |- context [try_route c ?f ?st (Some i)] => destruct (try_route c f st (Some i)) as [s2 e'] eqn:Et end.
+    intros H; inversion H; subst. pose proof (try_route_quiet _ _ _ _ _ _ Et) as Hq2.
+    apply try_route_frame in Et. destruct Et as (_ & _ & F3 & _).
+    split; [rewrite hooks_app, Hq, Hq2; reflexivity|].
+    unfold mark_available. destruct (avail_in _ i); cbn [set_rs f_stopped]; rewrite F3; reflexivity.
+Qed.
+
+Lemma worker_died_quiet c s i s' e : worker_died c s i = (s', e) ->
+  hooks_of e = [] /\ f_stopped s' = f_stopped s.
+Proof.
+  unfold worker_died. destruct (find_w (f_pool s) i) as [w|]; [|intros H; inversion H; split; reflexivity].
+  assert (Hl : hooks_of (match w_cur w with Some j => [ELost (jid j)] | None => [] end) = [])
+    by (destruct (w_cur w); reflexivity).
+  destruct (w_drain w && match w_q w with [] => true | _ => false end);
+    [intros H; inversion H; subst; split; [exact Hl|reflexivity]|].
+  unfold build, try_route_next. cbn [set_builds f_pool].
+  set (w0 := mkW (w_id w) None (w_q w) (w_drain w) (assoc i (f_builds s) + 1)).
+  assert (H1 : hooks_of (snd (match w_q w0 with j :: r => dispatch_job (set_q w0 r) j | [] => (w0, []) end)) = [])
+    by (destruct (w_q w0); reflexivity).
+  destruct (match w_q w0 with j :: r => dispatch_job (set_q w0 r) j | [] => (w0, []) end) as [w1 e1]. cbn [snd] in H1.
+  match goal with |- context [try_route c ?f ?st (Some i)] => destruct (try_route c f st (Some i)) as [s2 e'] eqn:Et end.
+  intros H; inversion H; subst. pose proof (try_route_quiet _ _ _ _ _ _ Et) as Hq2.
+  apply try_route_frame in Et. destruct Et as (_ & _ & F3 & _).
+  split; [rewrite !hooks_app, Hl, H1, Hq2; reflexivity|].
+  unfold mark_available. destruct (avail_in _ i); cbn [set_rs f_stopped]; rewrite F3; reflexivity.
+Qed.
+
+Lemma route_queued_quiet c n : forall s s' e, route_queued c s n = (s', e) -> hooks_of e = [].
+Proof.
+  induction n as [|k IH]; intros s s' e; cbn [route_queued]; [intros H; inversion H; reflexivity|].
+  destruct (f_q s); [intros H; inversion H; reflexivity|].
+  unfold try_route_next. destruct (try_route c _ s None) as [s1 e1] eqn:Et.
+  destruct (route_queued c s1 k) as [s2 e2] eqn:Er. intros H. inversion H; subst.
+  rewrite hooks_app, (try_route_quiet _ _ _ _ _ _ Et), (IH _ _ _ Er). reflexivity.
+Qed.
+
+Lemma grow_stopped c k : forall s from, f_stopped (grow c s from k) = f_stopped s.
+Proof.
+  induction k as [|k IH]; intros s from; cbn [grow]; [reflexivity|]. rewrite IH.
+  destruct (find_w (f_pool s) from); [unfold mark_available; cbn; destruct (avail_in _ from); reflexivity|reflexivity].
+Qed.
+
+Lemma shrink_stopped c k : forall s from, f_stopped (shrink c s from k) = f_stopped s.
+Proof.
+  induction k as [|k IH]; intros s from; cbn [shrink]; [reflexivity|]. rewrite IH.
+  destruct (find_w (f_pool s) from) as [w|]; [destruct (w_working w)|]; reflexivity.
+Qed.
+
+Lemma resize_quiet c s n s' e : resize c s n = (s', e) -> hooks_of e = [] /\ f_stopped s' = f_stopped s.
+Proof.
+  unfold resize. destruct (n =? 0); [intros H; inversion H; split; reflexivity|].
+  destruct (f_size s <? N.min pool_max n).
+  - intros H. pose proof (route_queued_quiet _ _ _ _ _ H) as Hq.
+    apply route_queued_frame in H. destruct H as (_ & _ & F3 & _). split; [exact Hq|].
+    rewrite F3. cbn [set_size f_stopped]. apply grow_stopped.
+  - destruct (N.min pool_max n <? f_size s); intros H; inversion H; subst; split; try reflexivity.
+    cbn [set_size f_stopped]. apply shrink_stopped.
+Qed.
+
+Lemma stop_factory_hooks s : hooks_of (snd (stop_factory s)) = [HStopped] /\ f_stopped (fst (stop_factory s)) = true.
+Proof.
+  unfold stop_factory. cbn [fst snd f_stopped]. split; [|reflexivity]. rewrite hooks_app.
+  replace (hooks_of (map (fun j => EDiscard (jid j) Shutdown) (f_q s))) with (@nil hook); [reflexivity|].
+  induction (f_q s); cbn; auto.
+Qed.
+
+Definition stopped_hook (b : bool) : list hook := if b then [HStopped] else [].
+
+Lemma after_message_hooks s : f_stopped s = false ->
+  hooks_of (snd (after_message s)) = stopped_hook (f_stopped (fst (after_message s))).
+Proof.
+  intros Hns. unfold after_message. destruct (f_drain s).
+  - cbn [fst snd]. rewrite Hns. reflexivity.
+  - destruct (all_available (f_pool s) && (len (f_q s) =? 0)).
+    + destruct (stop_factory_hooks (set_dstate s Drained)) as [H1 H2]. rewrite H1, H2. reflexivity.
+    + cbn [fst snd]. rewrite Hns. reflexivity.
+  - destruct (stop_factory_hooks s) as [H1 H2]. rewrite H1, H2. reflexivity.
+Qed.
+
+Lemma with_after_hooks r : f_stopped (fst r) = false -> hooks_of (snd r) = [] ->
+  hooks_of (snd (with_after r)) = stopped_hook (f_stopped (fst (with_after r))).
+Proof.
+  destruct r as [s0 e0]. cbn [fst snd]. intros Hns Hq. unfold with_after.
+  pose proof (after_message_hooks s0 Hns) as H. destruct (after_message s0) as [s1 e1]. cbn [fst snd] in *.
+  rewrite hooks_app, Hq. exact H.
+Qed.
+
+Lemma finish_w_hooks c s i only : f_stopped s = false ->
+  hooks_of (snd (finish_w c s i only)) = stopped_hook (f_stopped (fst (finish_w c s i only))).
+Proof.
+  intros Hns. unfold finish_w. rewrite Hns.
+  destruct (find_w (f_pool s) i) as [w|]; [|cbn [fst snd]; rewrite Hns; reflexivity].
+  destruct (w_cur w) as [j|]; [|cbn [fst snd]; rewrite Hns; reflexivity].
+  destruct (match only with Some id => jid j =? id | None => true end); [|cbn [fst snd]; rewrite Hns; reflexivity].
+  destruct (worker_finished c s i) as [s0 e0] eqn:Ew. destruct (worker_finished_quiet _ _ _ _ _ Ew) as [Hq Hs].
+  pose proof (with_after_hooks (s0, e0)) as H. cbn [fst snd] in H. specialize (H ltac:(congruence) Hq).
+  destruct (with_after (s0, e0)) as [s1 e1]. cbn [fst snd] in *. exact H.
+Qed.
+
+Definition drain_hook (o : fop) : list hook := match o with FDrain => [HDraining] | _ => [] end.
+
+Lemma finish_list_hooks c l : forall s, f_stopped s = false ->
+  hooks_of (snd (finish_list c s l)) = stopped_hook (f_stopped (fst (finish_list c s l))).
+Proof.
+  induction l as [|[i id] r IH]; intros s Hns; cbn [finish_list]; [cbn [fst snd]; rewrite Hns; reflexivity|].
+  pose proof (finish_w_hooks c s i (Some id) Hns) as H1.
+  destruct (finish_w c s i (Some id)) as [s1 e1] eqn:E1. cbn [fst snd] in H1.
+  destruct (f_stopped s1) eqn:Hs1.
+  - (* stopped in the middle: the rest does nothing *)
+    assert (Hrest : forall l' , finish_list c s1 l' = (s1, [])).
+    { induction l' as [|[i' id'] r' IH']; cbn [finish_list]; [reflexivity|].
+      unfold finish_w. rewrite Hs1. rewrite IH'. reflexivity. }
+    rewrite Hrest. cbn [fst snd]. rewrite app_nil_r, Hs1. exact H1.
+  - specialize (IH s1 Hs1). destruct (finish_list c s1 r) as [s2 e2]. cbn [fst snd] in *.
+    rewrite hooks_app, H1. exact IH.
+Qed.
+
+(* one label from a living factory: a draining hook iff the label is DrainRequests, then the
+   stopped hook iff the factory stops in this step; a stopped factory runs no hook and stays stopped *)
+Lemma step_hooks c s o :
+  (f_stopped s = true -> hooks_of (snd (step c s o)) = [] /\ f_stopped (fst (step c s o)) = true)
+  /\ (f_stopped s = false ->
+      hooks_of (snd (step c s o)) = drain_hook o ++ stopped_hook (f_stopped (fst (step c s o)))).
+Proof.
+  split; intros Hst.
+  - destruct o; cbn [step]; unfold finish_w; try rewrite Hst; try (split; [reflexivity|exact Hst]).
+    assert (Hrest : forall l', finish_list c s l' = (s, [])).
+    { induction l' as [|[i' id'] r' IH']; cbn [finish_list]; [reflexivity|].
+      unfold finish_w. rewrite Hst. rewrite IH'. reflexivity. }
+    rewrite Hrest. split; [reflexivity|exact Hst].
+  - destruct o as [j|i| |i|i|n| |dt| |]; cbn [step drain_hook app]; try rewrite Hst.
+    + destruct (dispatch c s j) as [s0 e0] eqn:Ed. pose proof (dispatch_quiet _ _ _ _ _ Ed) as Hq.
+      destruct (dispatch_frame _ _ _ _ _ Ed) as (_ & _ & F3 & _).
+      apply (with_after_hooks (s0, e0)); [cbn [fst]; congruence|exact Hq].
+    + apply finish_w_hooks. exact Hst.
+    + apply finish_list_hooks. exact Hst.
+    + destruct (find_w (f_pool s) i) as [w|]; [|cbn [fst snd]; rewrite Hst; reflexivity].
+      destruct (w_cur w); [|cbn [fst snd]; rewrite Hst; reflexivity].
+      destruct (worker_died c s i) as [s' e] eqn:E. destruct (worker_died_quiet _ _ _ _ _ E) as [Hq Hs].
+      cbn [fst snd]. rewrite Hq, Hs, Hst. reflexivity.
+    + destruct (worker_died c s i) as [s' e] eqn:E. destruct (worker_died_quiet _ _ _ _ _ E) as [Hq Hs].
+      cbn [fst snd]. rewrite Hq, Hs, Hst. reflexivity.
+    + destruct (resize c s n) as [s0 e0] eqn:Ed. destruct (resize_quiet _ _ _ _ _ Ed) as [Hq Hs].
+      apply (with_after_hooks (s0, e0)); [cbn [fst]; congruence|exact Hq].
+    + unfold with_after. pose proof (after_message_hooks (set_dstate s Draining) Hst) as H.
+      destruct (after_message (set_dstate s Draining)) as [s1 e1]. cbn [fst snd] in *.
+      rewrite hooks_app, H. reflexivity.
+    + cbn [fst snd set_now f_stopped]. rewrite Hst. reflexivity.
+    + cbn [fst snd set_now f_stopped]. rewrite Hst. reflexivity.
+    + pose proof (after_message_hooks s Hst) as H. destruct (after_message s) as [s1 e1]. cbn [fst snd] in H.
+      destruct (f_stopped s1) eqn:Hs1; cbn [fst snd]; rewrite Hs1.
+      * rewrite hooks_app, H. reflexivity.
+      * reflexivity.
+Qed.
+
+Definition count_drains (ops : list fop) : nat :=
+  length (filter (fun o => match o with FDrain => true | _ => false end) ops).
+
+Definition is_drain (o : fop) : bool := match o with FDrain => true | _ => false end.
+
+(* DrainRequests labels that reach a living factory *)
+Fixpoint drains_alive (c : fcfg) (s : fstate) (ops : list fop) : nat :=
+  match ops with
+  | [] => 0
+  | o :: r => ((if negb (f_stopped s) && is_drain o then 1 else 0) + drains_alive c (fst (step c s o)) r)%nat
+  end.
+
+Lemma drains_alive_le c ops : forall s, (drains_alive c s ops <= count_drains ops)%nat.
+Proof.
+  unfold count_drains. induction ops as [|o r IH]; intros s; cbn [drains_alive filter length]; [apply Nat.le_refl|].
+  specialize (IH (fst (step c s o))). destruct o; cbn [is_drain andb]; try rewrite andb_false_r; cbn [length]; try lia.
+  destruct (negb (f_stopped s)); cbn [andb]; lia.
+Qed.
+
+Lemma run_from_hooks c ops : forall s,
+  (f_stopped s = true -> hooks_of (concat (run_from c s ops)) = [] /\ f_stopped (state_after c s ops) = true)
+  /\ (f_stopped s = false ->
+      hooks_of (concat (run_from c s ops))
+      = repeat HDraining (drains_alive c s ops) ++ stopped_hook (f_stopped (state_after c s ops))).
+Proof.
+  induction ops as [|o r IH]; intros s.
+  { cbn [run_from concat state_after drains_alive repeat app]. split; intros Hst.
+    - split; [reflexivity|exact Hst].
+    - rewrite Hst. reflexivity. }
+  cbn [run_from state_after drains_alive]. destruct (step_hooks c s o) as [S1 S2].
+  destruct (step c s o) as [s1 e1] eqn:Es. cbn [fst snd concat] in *. destruct (IH s1) as [I1 I2].
+  split; intros Hst.
+  - destruct (S1 Hst) as [A B]. destruct (I1 B) as [C D]. rewrite hooks_app, A, C. split; [reflexivity|exact D].
+  - specialize (S2 Hst). rewrite hooks_app, S2, Hst. cbn [negb andb]. destruct (f_stopped s1) eqn:Hs1.
+    + destruct (I1 eq_refl) as [C D]. rewrite C, D. cbn [stopped_hook]. rewrite app_nil_r.
+      assert (Hz : drains_alive c s1 r = 0%nat).
+      { clear -Hs1. revert s1 Hs1. induction r as [|o' r' IH']; intros s1 Hs1; cbn [drains_alive]; [reflexivity|].
+        rewrite Hs1. cbn [negb andb]. destruct (step_hooks c s1 o') as [S1 _]. destruct (S1 Hs1) as [_ B].
+        rewrite (IH' _ B). reflexivity. }
+      rewrite Hz, Nat.add_0_r. destruct o; cbn [is_drain drain_hook repeat app]; reflexivity.
+    + rewrite (I2 eq_refl). cbn [stopped_hook]. rewrite app_nil_r.
+      destruct o; cbn [is_drain drain_hook repeat app Nat.add]; reflexivity.
+Qed.
+
+(* a factory that is not draining does not stop on a label other than DrainRequests *)
+Definition calm (s : fstate) : Prop := f_drain s = NotDraining /\ f_stopped s = false.
+
+Lemma with_after_calm r : calm (fst r) -> calm (fst (with_after r)).
+Proof.
+  destruct r as [s0 e0]. cbn [fst]. intros [H1 H2]. unfold with_after.
+  rewrite (not_draining_never_stops s0 H1). cbn [fst]. split; assumption.
+Qed.
+
+Lemma finish_w_calm c s i only : calm s -> calm (fst (finish_w c s i only)).
+Proof.
+  intros [H1 H2]. unfold finish_w. rewrite H2.
+  destruct (find_w (f_pool s) i) as [w|]; [|split; assumption].
+  destruct (w_cur w) as [j|]; [|split; assumption].
+  destruct (match only with Some id => jid j =? id | None => true end); [|split; assumption].
+  destruct (worker_finished c s i) as [s0 e0] eqn:Ew.
+  pose proof (with_after_calm (s0, e0)) as H. cbn [fst] in H.
+  destruct (with_after (s0, e0)) as [s1 e1]. cbn [fst] in *. apply H.
+  split; [rewrite (worker_finished_mode _ _ _ _ _ Ew); exact H1|].
+  destruct (worker_finished_quiet _ _ _ _ _ Ew) as [_ Hs]. congruence.
+Qed.
+
+Lemma finish_list_calm c l : forall s, calm s -> calm (fst (finish_list c s l)).
+Proof.
+  induction l as [|[i id] r IH]; intros s Hc; cbn [finish_list]; [exact Hc|].
+  pose proof (finish_w_calm c s i (Some id) Hc) as H1. destruct (finish_w c s i (Some id)) as [s1 e1]. cbn [fst] in H1.
+  specialize (IH s1 H1). destruct (finish_list c s1 r) as [s2 e2]. exact IH.
+Qed.
+
+Lemma step_calm c s o : is_drain o = false -> calm s -> calm (fst (step c s o)).
+Proof.
+  intros Ho Hc. pose proof Hc as [H1 H2]. destruct o as [j|i| |i|i|n| |dt| |]; cbn [step]; try discriminate; try rewrite H2.
+  - destruct (dispatch c s j) as [s0 e0] eqn:Ed. apply (with_after_calm (s0, e0)). cbn [fst].
+    destruct (dispatch_frame _ _ _ _ _ Ed) as (_ & F2 & F3 & _). split; congruence.
+  - apply finish_w_calm. exact Hc.
+  - apply finish_list_calm. exact Hc.
+  - destruct (find_w (f_pool s) i) as [w|]; [|exact Hc]. destruct (w_cur w); [|exact Hc].
+    destruct (worker_died c s i) as [s' e] eqn:E. cbn [fst].
+    destruct (worker_died_quiet _ _ _ _ _ E) as [_ Hs]. split; [rewrite (worker_died_mode _ _ _ _ _ E); exact H1|congruence].
+  - destruct (worker_died c s i) as [s' e] eqn:E. cbn [fst].
+    destruct (worker_died_quiet _ _ _ _ _ E) as [_ Hs]. split; [rewrite (worker_died_mode _ _ _ _ _ E); exact H1|congruence].
+  - destruct (resize c s n) as [s0 e0] eqn:Ed. apply (with_after_calm (s0, e0)). cbn [fst].
+    destruct (resize_quiet _ _ _ _ _ Ed) as [_ Hs]. split; [rewrite (resize_mode _ _ _ _ _ Ed); exact H1|congruence].
+  - exact Hc.
+  - exact Hc.
+  - rewrite (not_draining_never_stops s H1). cbn [fst]. rewrite H2. exact Hc.
+Qed.
+
+Lemma stopped_needs_drain c ops : forall s, calm s ->
+  f_stopped (state_after c s ops) = true -> (1 <= drains_alive c s ops)%nat.
+Proof.
+  induction ops as [|o r IH]; intros s Hc; cbn [state_after drains_alive].
+  { destruct Hc as [_ H2]. congruence. }
+  intros Hst. destruct (is_drain o) eqn:Ho.
+  - destruct Hc as [_ H2]. rewrite H2. cbn [negb andb]. lia.
+  - rewrite andb_false_r. cbn [Nat.add]. apply IH; [apply step_calm; assumption|exact Hst].
+Qed.
+
+Lemma init_calm c t0 : calm (fst (init c t0)) /\ snd (init c t0) = [EHook HStarted].
+Proof.
+  unfold init. cbn [fst snd]. split; [|reflexivity]. split.
+  - cbn [set_size f_drain]. rewrite grow_mode. reflexivity.
+  - cbn [set_size f_stopped]. rewrite grow_stopped. reflexivity.
+Qed.
+
+(* The hooks of EVERY run: started exactly once and first; then one draining hook per
+   DrainRequests that reached the living factory (so exactly one for a single request); then, iff
+   the factory has stopped, the stopped hook exactly once and last -- and a stop is always
+   preceded by at least one draining hook. *)
+Theorem hooks_order c ops :
+  let s := state_after c (fst (init c 0)) ops in
+  let k := drains_alive c (fst (init c 0)) ops in
+  hooks_of (concat (factory_run c ops)) = HStarted :: repeat HDraining k ++ stopped_hook (f_stopped s)
+  /\ (k <= count_drains ops)%nat
+  /\ (f_stopped s = true -> (1 <= k)%nat).
+Proof.
+  cbn zeta. destruct (init_calm c 0) as [Hc He]. unfold factory_run.
+  destruct (init c 0) as [s0 e0]. cbn [fst snd] in *. subst e0.
+  destruct (run_from_hooks c ops s0) as [_ H2]. destruct Hc as [H1 Hns].
+  split; [|split].
+  - cbn [concat]. rewrite hooks_app. cbn [hooks_of flat_map app]. f_equal. apply H2. exact Hns.
+  - apply drains_alive_le.
+  - intros Hst. apply stopped_needs_drain; [split; assumption|exact Hst].
+Qed.
